@@ -717,6 +717,80 @@ def _tree(o):
 EXTRA.append(_tree)
 
 
+
+# ---------------------------------------------------------------------------
+# find_top_level.py / compression.py (C15, C13)
+# ---------------------------------------------------------------------------
+
+def _findtop(o):
+    ft = _src('gemato/find_top_level.py')
+    co = _src('gemato/compression.py')
+    f = find_func(ft, 'find_top_level_manifest')
+
+    def conds():
+        out = [(n.lineno, _u(n.test)) for n in ast.walk(f) if isinstance(n, ast.If)]
+        out.sort()
+        return llist(lstr(c) for _l, c in out)
+    o.item('findTopConditions', 'List (List Nat)', conds, '[]')
+
+    def names():
+        out = []
+        for n in f.body:
+            if isinstance(n, ast.Assign) and _u(n.targets[0]) == 'manifest_filenames':
+                out.append(_u(n.value))
+        for n in ast.walk(f):
+            if isinstance(n, ast.If) and _u(n.test) == 'allow_compressed':
+                out += [_u(x.value) for x in n.body if isinstance(x, ast.Assign)]
+        return llist(lstr(x) for x in out)
+    o.item('findTopNames', 'List (List Nat)', names, '[]')
+
+    def defaults():
+        names_ = [a.arg for a in f.args.args]
+        return llist(f'({lstr(a)}, {lstr(_u(d))})' for a, d in zip(names_, f.args.defaults))
+    o.item('findTopDefaults', 'List (List Nat × List Nat)', defaults, '[]')
+
+    def excepts():
+        return llist(lstr(_u(h.type)) for n in ast.walk(f) if isinstance(n, ast.Try) for h in n.handlers)
+    o.item('findTopExcepts', 'List (List Nat)', excepts, '[]')
+
+    def tail():
+        w = [n for n in f.body if isinstance(n, ast.While)][0]
+        return llist(lstr(x) for st in w.body[-2:] for x in _u(st).split('\n'))
+    o.item('findTopLoopTail', 'List (List Nat)', tail, '[]')
+
+    def suffixes():
+        g = find_func(co, 'get_potential_compressed_names')
+        for n in ast.walk(g):
+            if isinstance(n, ast.Tuple):
+                return llist(lstr(x) for x in ast.literal_eval(n))
+        raise KeyError('suffix tuple')
+    o.item('compressedSuffixes', 'List (List Nat)', suffixes, '[]')
+
+    def suffix_detect():
+        g = find_func(co, 'get_compressed_suffix_from_filename')
+        for n in ast.walk(g):
+            if isinstance(n, ast.Compare) and isinstance(n.ops[0], ast.In):
+                return llist(lstr(x) for x in ast.literal_eval(n.comparators[0]))
+        raise KeyError('ext in (...)')
+    o.item('compressedExts', 'List (List Nat)', suffix_detect, '[]')
+
+    def codecs():
+        g = find_func(co, 'open_compressed_file')
+        out = []
+        for n in ast.walk(g):
+            if isinstance(n, ast.If):
+                t = n.test
+                c = t.values[0] if isinstance(t, ast.BoolOp) else t
+                if isinstance(c, ast.Compare) and _u(c.left) == 'suffix':
+                    out.append((n.lineno, ast.literal_eval(c.comparators[0]), ' '.join(_u(n.body[0]).split())))
+        out.sort()
+        return llist(f'({lstr(a)}, {lstr(b)})' for _l, a, b in out)
+    o.item('codecDispatch', 'List (List Nat × List Nat)', codecs, '[]')
+
+
+EXTRA.append(_findtop)
+
+
 if __name__ == '__main__':
     errs = write_extracted()
     print(open(os.path.join(LEAN, 'Gemato', 'Extracted.lean')).read())
